@@ -204,7 +204,97 @@ func c03(r *rand.Rand, tier string, tr *trace.Buf, extra map[string]interface{})
 		p := pk
 		prevPK = &p
 	}
+	c03hold(r, tier, tr)
 	extra["exits"] = exitCount
 	extra["iterations_histogram"] = iterHist
 	extra["boundary_hits"] = boundary
+}
+
+
+// holdEvent: one key object used the way an application uses it - many calls, the message passed in ONE
+// buffer that is rewritten in place between calls, every returned signature / sealed message kept by the
+// caller - and everything that was returned is looked at again after the last call.
+type holdEvent struct {
+	Ev           string `json:"ev"`
+	Key          int    `json:"key"`
+	Calls        int    `json:"calls"`
+	Res          string `json:"res"`
+	KeptSigSame  bool   `json:"keptsigsame"`  // signatures returned earlier are unchanged by later calls
+	KeptSealSame bool   `json:"keptsealsame"` // sealed messages returned earlier are unchanged by later calls
+	AllVerify    bool   `json:"allverify"`    // each signature verifies for the message as it was at its call
+	AllOpen      bool   `json:"allopen"`      // each sealed message opens to the message as it was at its call
+	SealIsSigMsg bool   `json:"sealissigmsg"` // each sealed message is Sign(m) || m
+}
+
+func c03hold(r *rand.Rand, tier string, tr *trace.Buf) {
+	nkeys := 3
+	if tier == "thorough" {
+		nkeys = 12
+	}
+	for k := 0; k < nkeys; k++ {
+		var seed [48]uint8
+		r.Read(seed[:])
+		d, err := dilithium.NewDilithiumFromSeed(seed)
+		if err != nil {
+			panic(err)
+		}
+		pk := d.GetPK()
+		// lengths: long first, then shorter ones (a result that lives in a reused work area is overwritten
+		// by a later call that fits into it), equal lengths in a row (a memo keyed on the caller's buffer)
+		lens := []int{5000, 200, 200, 64, 64, 64, 128, 128, 1, 1, 0, 0, 33, 33, 4595, 4595, 300}
+		r.Shuffle(len(lens)-1, func(i, j int) { lens[i+1], lens[j+1] = lens[j+1], lens[i+1] })
+		buf := make([]byte, 6000)
+		type rec struct {
+			msg      []byte
+			sig      [dilithium.CryptoBytes]uint8
+			sealed   []byte
+			sealedCp []byte
+		}
+		var recs []rec
+		e := holdEvent{Ev: "hold", Key: k, KeptSigSame: true, KeptSealSame: true, AllVerify: true, AllOpen: true, SealIsSigMsg: true}
+		e.Res = call(func() {
+			for i, n := range lens {
+				m := buf[:n] // the SAME backing array every time
+				if i%3 != 2 {
+					r.Read(m)
+				} else if n > 0 {
+					m[r.Intn(n)] ^= 1 << uint(r.Intn(8)) // one bit of the previous content
+				}
+				rc := rec{msg: dup(m)}
+				var err error
+				if rc.sig, err = d.Sign(m); err != nil {
+					panic(err.Error())
+				}
+				if rc.sealed, err = d.Seal(m); err != nil {
+					panic(err.Error())
+				}
+				rc.sealedCp = dup(rc.sealed)
+				recs = append(recs, rc)
+				e.Calls += 2
+			}
+		})
+		sigCopies := make([][dilithium.CryptoBytes]uint8, len(recs))
+		for i := range recs {
+			sigCopies[i] = recs[i].sig
+		}
+		for i, rc := range recs {
+			if rc.sig != sigCopies[i] {
+				e.KeptSigSame = false
+			}
+			if string(rc.sealed) != string(rc.sealedCp) {
+				e.KeptSealSame = false
+			}
+			if !dilithium.Verify(rc.msg, rc.sig, &pk) {
+				e.AllVerify = false
+			}
+			if o := dilithium.Open(rc.sealedCp, &pk); o == nil || string(o) != string(rc.msg) {
+				e.AllOpen = false
+			}
+			if len(rc.sealedCp) != dilithium.CryptoBytes+len(rc.msg) || string(rc.sealedCp[:dilithium.CryptoBytes]) != string(rc.sig[:]) ||
+				string(rc.sealedCp[dilithium.CryptoBytes:]) != string(rc.msg) {
+				e.SealIsSigMsg = false
+			}
+		}
+		tr.Emit(e)
+	}
 }
